@@ -142,7 +142,7 @@ pub fn step<const M: usize>(s: &mut Sim<M>, rep: &mut Report, p: &Profile) -> (u
             let (esz, _) = type_layout(ty);
             let bytes = pick_size(s, p);
             let len = if esz == 0 { s.rng.below(40) } else { bytes / esz };
-            let kind = s.rng.below(6) as u8;
+            let kind = s.rng.below(7) as u8;
             let f = fl(s);
             s.op_alloc_slice(rep, ty, len, kind, f)
         }
